@@ -4,7 +4,7 @@ from __future__ import annotations
 import ast
 
 from ..absint import new_interp, Interp, HList, HDict, HInst, NONE, const, is_const, fmt, mk_not
-from ..astutil import unparse, dotted, walk_no_nested_defs
+from ..astutil import unparse, dotted, xdotted, walk_no_nested_defs
 from ..names import N
 from ..common import AnalysisError, Report
 from ..facts import facts
@@ -156,7 +156,7 @@ def rule_shared(rep: Report, rid="C15.shared") -> None:
             for name, val in c.class_attrs.items():
                 nattr += 1
                 mutable = isinstance(val, (ast.List, ast.Dict, ast.Set, ast.ListComp, ast.DictComp)) or \
-                    (isinstance(val, ast.Call) and dotted(val.func) in ("list", "dict", "set", "deque", "defaultdict", "collections.deque", "collections.defaultdict"))
+                    (isinstance(val, ast.Call) and xdotted(val.func, m) in ("list", "dict", "set", "deque", "defaultdict", "collections.deque", "collections.defaultdict"))
                 mutated = []
                 if mutable:
                     for fi2 in _pkg_functions():
@@ -482,7 +482,7 @@ def rule_det(rep: Report, rid="C15.det") -> None:
         for node in walk_no_nested_defs(fi.node):
             bad = None
             if isinstance(node, ast.Call):
-                nm = dotted(node.func) or ""
+                nm = xdotted(node.func, fi.module) or ""
                 last = nm.rsplit(".", 1)[-1]
                 n += 1
                 if (isinstance(node.func, ast.Name) and last in ("id", "hash")) or (nm.split(".")[0] in DET_BAD_MODULES) or (last in DET_BAD_CALLS and "." in nm and nm.split(".")[0] in DET_BAD_MODULES | {"os"}):
@@ -492,7 +492,7 @@ def rule_det(rep: Report, rid="C15.det") -> None:
             if isinstance(node, (ast.For, ast.comprehension)) and isinstance(node.iter, ast.Call) and isinstance(node.iter.func, ast.Name) \
                     and node.iter.func.id in ("set", "frozenset"):
                 bad = "iteration over set(...) (order of strings varies between runs)"
-            if isinstance(node, ast.Attribute) and dotted(node) in ("os.environ",):
+            if isinstance(node, (ast.Attribute, ast.Name)) and xdotted(node, fi.module) in ("os.environ",):
                 bad = "os.environ"
             if bad:
                 rep.ob(rid, "results depend only on the input (no clock, randomness, object identity, hash order or environment)", False,
